@@ -84,6 +84,8 @@ def _obs_violation(o, b, seed):
     fields = _field_diff(b["exp"], b["got"])
     if not fields and not b["laws"]:
         fields = ["law"]
+    prio = ["valid", "self", "canread", "canread_rev", "rt", "law", "str", "json", "doc", "ydoc", "back", "jback", "yback", "s", "rev", "jq", "bare", "e"]
+    fields.sort(key=lambda k: (prio.index(k) if k in prio else len(prio), k))
     f = fields[0]
     kind = o["kind"]
     name = _obs_name(o)
